@@ -401,7 +401,6 @@ def trace_origin(name: str, source: str, *, __all__: bool = False) -> _TraceResu
     return None
 
 
-@functools.lru_cache(maxsize=100_000)
 def _star_import_provides(module: str | None, level: int, name: str) -> bool | None:
     """Determine if `from module import *` binds name. None if that cannot be determined."""
     if level or module is None:
